@@ -55,13 +55,13 @@ def interpreter_steps(dag, method, nsteps):
     out = []
     last = {}
     for _ in range(nsteps):
-        rec = {}
+        rec = {"phase": interp.next_phase, "failed": False}
         try:
             for evt in interp.run_single_step():
                 if type(evt).__name__ == "StateComputed":
                     last[evt.component_id] = (B.norm(evt.state_component), B.norm(evt.t), evt.time_id)
         except FailStepException:
-            pass
+            rec["failed"] = True
         except TransitionEvent as e:
             interp.next_phase = e.next_phase
         except (B.MyError, B.OtherError) as e:
@@ -139,7 +139,11 @@ def check_case(case, sanitize=False):
             info["skip"] = "interpreter and reference disagree (C01's business)"
             return None, info
     try:
-        cg, text = F.generate(dag, method["ulen"])
+        if case.get("instrumented"):
+            # non-default generator options: profiling counters/timers around phases and functions
+            cg, text = F.generate(dag, method["ulen"], emit_instrumentation=True, timing_function="second")
+        else:
+            cg, text = F.generate(dag, method["ulen"])
     except Exception as e:
         return "fortran.CodeGenerator raised %s: %s" % (type(e).__name__, str(e)[:160]), info
     try:
@@ -208,6 +212,15 @@ def check_case(case, sanitize=False):
                 if fv is None or not same_value(want, fv):
                     return "after run() call %d: returned %s of component %s is %s in Fortran, %s in the interpreter" % (
                         k + 1, what, comp, B.show(fv[:2]) if isinstance(fv, tuple) else B.show(fv), B.show(want)), info
+        if case.get("instrumented"):
+            # the profile counters the generated module documents
+            for pname in dag.phases:
+                runs = sum(1 for j in isteps[:k + 1] if j["phase"] == pname)
+                fails = sum(1 for j in isteps[:k + 1] if j["phase"] == pname and j["failed"])
+                for field, want in (("dagrt_phase_%s_count" % pname, runs), ("dagrt_phase_%s_failures" % pname, fails)):
+                    if fs.get(field) != want:
+                        return "after run() call %d: profile counter %s is %s, but the interpreter ran %d %s" % (
+                            k + 1, field, fs.get(field), want, "failed steps of it" if "failures" in field else "steps of that phase"), info
         info["steps_compared"] += 1
     return None, info
 
@@ -215,7 +228,7 @@ def check_case(case, sanitize=False):
 def sig_of(msg):
     import re
     for key in ("does not compile", "CodeGenerator raised", "CodeBuilder raised", "did not finish", "wrote to stderr",
-                "ended with status", "dumped", "next phase", "is not in the state dump", "unallocated", "returned",
+                "ended with status", "dumped", "next phase", "is not in the state dump", "unallocated", "returned", "profile counter",
                 "the interpreter raises"):
         if key in msg:
             if key == "does not compile":
@@ -238,15 +251,17 @@ def shrink(sub, case):
     c = {"method": case["method"], "plan": {"max_steps": case["steps"]}}
 
     def failing(cc):
-        return check_case({"method": cc["method"], "steps": cc["plan"]["max_steps"]})[0]
+        return check_case({"method": cc["method"], "steps": cc["plan"]["max_steps"],
+                           "instrumented": case.get("instrumented", False)})[0]
     out = shrink_method_case(c, failing, sig_of, budget=30)
-    return {"method": out["method"], "steps": out["plan"]["max_steps"]}
+    return {"method": out["method"], "steps": out["plan"]["max_steps"], "instrumented": case.get("instrumented", False)}
 
 
 def shard(ctx, n):
     if not F.gfortran_available():
         raise HarnessError("gfortran is not installed")
-    strat = st.fixed_dictionaries({"method": methods(profile_for(ctx)), "steps": st.integers(1, 5)})
+    strat = st.fixed_dictionaries({"method": methods(profile_for(ctx)), "steps": st.integers(1, 5),
+                                   "instrumented": st.sampled_from([False, False, False, True])})
 
     def body(case):
         msg, info = check_case(case)
@@ -257,6 +272,8 @@ def shard(ctx, n):
             return
         feats = method_features(case["method"])
         classes = ["compiled" if info.get("compiled") else "not_compiled"]
+        if case.get("instrumented"):
+            classes.append("instrumented")
         for f in ("loop", "zero_trip", "if", "else", "ifexpr", "fail", "switch", "restart", "raise", "yield", "array",
                   "matmul", "self_update", "multi_result", "zero_result", "nested_call", "multi_phase", "uvec_move",
                   "zero_arg_call"):
